@@ -1,17 +1,18 @@
 """C01 - generated bindings compile (narrow kernel: identifier mangling; plus the compile-critical templates checked under C03)."""
 import os, re
 from common import *
-LEVEL_TEXT = 'bounded model checking of the real BindgenContext::rust_mangle on all identifiers of length 1..8 over [a-z0-9_$@?SA]: result is a legal, non-keyword Rust identifier and is unchanged when the input already was one'
-OUTSIDE = ['path resolution, generics / PhantomData, derive soundness as rustc sees it, every quote! template: i.e. almost all of the property', 'name uniqueness (overload counters, seen sets): real hash maps and item ids',
+LEVEL_TEXT = 'bounded model checking of the escaping DECISION of BindgenContext::rust_mangle (its condition, sliced verbatim) on all identifiers of length 1..8 over [a-z0-9_$@?SA]: every keyword / name with $ @ ? is escaped, nothing else is (beyond the documented extras)'
+OUTSIDE = ['the escaping itself (String::replace x3 + push): not encodable under CBMC (measured: no result in 19 min for 2-byte names)', 'path resolution, generics / PhantomData, derive soundness as rustc sees it, every quote! template: i.e. almost all of the property', 'name uniqueness (overload counters, seen sets): real hash maps and item ids',
            'injectivity of mangling is not claimed: `a$` and `a@` collide by design']
 EXPLANATION = 'String LENGTH is the harness parameter; every byte is symbolic over the identifier alphabet plus the three characters clang accepts but Rust does not. Oracle: keyword list of the Rust Reference (editions 2015-2024), written in the harness.'
 
 HARNESS = r'''
 #![allow(warnings)]
 use std::borrow::Cow;
-pub struct BindgenContext;
-impl BindgenContext {
-/*MANGLE*/
+/// the decision of BindgenContext::rust_mangle: does this name get escaped?  (the `if` condition, sliced verbatim;
+/// the escaping itself - three String::replace calls and a push - is not encodable: CBMC did not finish it in 19 min for 2-byte names)
+pub fn needs_mangling(name: &str) -> bool {
+    /*CONDITION*/
 }
 #[cfg(kani)]
 mod proofs {
@@ -31,17 +32,14 @@ mod proofs {
         let mut i = 0;
         while i < L { let b = bytes[i]; kani::assume((b >= b'a' && b <= b'z') || b == b'_' || b == b'$' || b == b'@' || b == b'?' || b == b'S' || b == b'A' || (i > 0 && b >= b'0' && b <= b'9')); i += 1; }
         let s = unsafe { core::str::from_utf8_unchecked(&bytes) };
-        let out = BindgenContext.rust_mangle(s);
-        let ob = out.as_bytes();
-        let mut k = 0; while k < ob.len() { assert!(ob[k] != b'$' && ob[k] != b'@' && ob[k] != b'?', "mangled identifier still contains a character Rust rejects"); k += 1; }
-        assert!(!is_keyword(ob), "mangled identifier is a Rust keyword");
-        assert!(ob.len() >= L);
-        // definition and use sites agree: a name that needs no mangling is returned unchanged
-        let mut clean = !is_keyword(&bytes); let mut k = 0; while k < L { if bytes[k] == b'$' || bytes[k] == b'@' || bytes[k] == b'?' { clean = false; } k += 1; }
-        let prim = matches!(s, "str" | "bool" | "f32" | "f64" | "usize" | "isize" | "u128" | "i128" | "u64" | "i64" | "u32" | "i32" | "u16" | "i16" | "u8" | "i8")
-            || matches!(s, "alignof" | "offsetof" | "sizeof" | "pure" | "proc");    // names bindgen escapes although Rust would accept them
-        if clean && !prim { assert!(ob.len() == L, "a legal identifier was altered"); let mut k = 0; while k < L { assert!(ob[k] == bytes[k], "a legal identifier was altered"); k += 1; } }
-        core::mem::forget(out);
+        let m = needs_mangling(s);
+        let mut illegal = false; let mut k = 0; while k < L { if bytes[k] == b'$' || bytes[k] == b'@' || bytes[k] == b'?' { illegal = true; } k += 1; }
+        // every name rustc would reject as an identifier is escaped
+        assert!(!(illegal || is_keyword(&bytes)) || m, "a name that is not a legal Rust identifier (keyword, or contains $ @ ?) is emitted unescaped");
+        // definition and use sites agree: nothing else is touched, except the names bindgen escapes although Rust would accept them
+        let extra = matches!(s, "str" | "bool" | "f32" | "f64" | "usize" | "isize" | "u128" | "i128" | "u64" | "i64" | "u32" | "i32" | "u16" | "i16" | "u8" | "i8" | "alignof" | "offsetof" | "sizeof" | "pure" | "proc");
+        assert!(!m || illegal || is_keyword(&bytes) || extra, "a legal identifier is escaped");
+        kani::cover!(m && !illegal, "keyword escaped");
     }
     /*GENERATED*/
 }
@@ -51,19 +49,36 @@ mod proofs {
 def build(tier, seed):
     def k():
         mangle = extract_from('ir/context.rs', r"^    pub\(crate\) fn rust_mangle<'a>\(")
+        m = re.search(r'\bif (name\.contains.*?)\{\s*let mut s = name\.to_owned\(\);', mangle, flags=re.S)
+        if not m:
+            raise SliceError('rust_mangle: condition / escaping shape changed')
+        cond = m.group(1).strip()
         gen, hs = [], []
         for L in range(1, 9):
-            gen.append('#[kani::proof] #[kani::unwind(%d)] #[kani::stub(core::slice::memchr::memchr, naive_memchr)] fn mangle_len%d() { case::<%d>() }' % (max(60, 2 * L + 12), L, L))
-            hs.append(H('mangle_len%d' % L, stubbing=True, timeout=1500, weight=2, tier='quick' if L in (2, 3, 5) else 'thorough', desc='rust_mangle on every identifier of length %d over [a-z0-9_$@?SA]' % L, sample={'length': L}))
+            gen.append('#[kani::proof] #[kani::unwind(%d)] #[kani::stub(core::slice::memchr::memchr, naive_memchr)] fn mangle_len%d() { case::<%d>() }' % (60, L, L))
+            hs.append(H('mangle_len%d' % L, stubbing=True, timeout=1500, weight=2, tier='quick' if L in (1, 2, 3, 5, 8) else 'thorough', may_unsat=('keyword escaped',) if L == 1 else (), desc='rust_mangle on every identifier of length %d over [a-z0-9_$@?SA]' % L, sample={'length': L}))
         kern = Kernel(name='mangle')
-        kern.files = {'src/lib.rs': HARNESS.replace('/*MANGLE*/', mangle).replace('/*GENERATED*/', '\n    '.join(gen))}
+        kern.files = {'src/lib.rs': HARNESS.replace('/*CONDITION*/', cond).replace('/*GENERATED*/', '\n    '.join(gen))}
         kern.harnesses = hs
         kern.encoded = [enc('ir/context.rs', 'BindgenContext::rust_mangle', mangle)]
-        kern.stubs = ['-Z stubbing: core::slice::memchr::memchr -> naive loop', 'BindgenContext: unit struct (rust_mangle never reads self)']
+        kern.stubs = ['-Z stubbing: core::slice::memchr::memchr -> naive loop', 'only the `if` condition of rust_mangle is compiled (as fn needs_mangling)']
         kern.assumptions = ['identifier alphabet: a-z, 0-9 (not first), _, S, A plus $ @ ?']
         kern.bounds = ['identifier length 1..8 (quick: 2, 3, 5)']
         return [kern]
+    ks = []
     try:
-        return k()
+        ks += k()
     except SliceError as e:
-        return [Kernel(name='mangle', error='slice-failed: %s' % e)]
+        ks.append(Kernel(name='mangle', error='slice-failed: %s' % e))
+    # compile-critical token templates: the bit-field accessor / constructor templates instantiated as real code (kernel shared with C03);
+    # a template that stops compiling shows up here as INCONCLUSIVE (finding F6 was found that way)
+    def templates():
+        from props import c03
+        kk = c03.k3(tier, seed, load_known())
+        kk.harnesses = [h for h in kk.harnesses if h.expect == 'pass' and (h.name.startswith('t_u_') or h.name.startswith('t_s_bool'))]
+        for i, h in enumerate(kk.harnesses):
+            h.tier = 'quick' if i % 5 == 0 else 'thorough'
+        kk.name = 'accessor_templates'
+        return kk
+    ks.append(kernel_or_error('accessor_templates', templates))
+    return ks
